@@ -201,6 +201,18 @@ for who, look in (('registering thread', in_main), ('another thread', in_worker)
     want = ['Warning'] + ['Pending'] * 6 + ['Failure', 'Pending']
     if got != want:
         bad.append('per-command registration (general, after look-ups): 0x7100.. classified {0} by {1}, expected {2}'.format(got, who, want))
+# the LAST registration counts, for every code it covers: a range, then one code inside it registered differently, then
+# the very same range once more
+for cmd_ in (None, d.CStoreRSPMessage, d.NActionRSPMessage):
+    base = 0x7200 if cmd_ is None else 0x7300 + (0x40 if cmd_ is d.NActionRSPMessage else 0)
+    kw_ = {} if cmd_ is None else {'command': cmd_}
+    statuses.add_status(base, 'Warning', 'private range', end=base + 0x0F, **kw_)
+    statuses.add_status(base + 5, 'Failure', 'one code of it, differently', **kw_)
+    mid = in_main(base + 5, cmd_)
+    statuses.add_status(base, 'Warning', 'private range', end=base + 0x0F, **kw_)
+    got = [in_main(base + k_, cmd_) for k_ in (0, 4, 5, 6, 0x0F)] + [in_worker(base + 5, cmd_)]
+    if mid != 'Failure' or got != ['Warning'] * 6:
+        bad.append('per-command registration (range registered again after one of its codes was registered differently, command {0}): 0x{1:04X} was {2} in between, the range then classifies {3}'.format(getattr(cmd_, '__name__', None), base + 5, mid, got))
 # a status type given as a str SUBCLASS (an enum member, say) is the same type name
 class Kind(str):
     pass
